@@ -12,6 +12,7 @@ package main
 // DeadLetterEvent addressed to that response PID.
 
 import (
+	"context"
 	"fmt"
 	"strings"
 	"sync"
@@ -155,6 +156,12 @@ func c11Run(c *caseCtx) (res caseResult) {
 		rsps = append(rsps, rsp)
 		rpids = append(rpids, e.Spawn(func() actor.Receiver { return rsp }, "rsp", actor.WithID(fmt.Sprint(i)), actor.WithInboxSize(pick(r, 1, 8, 1024))))
 	}
+	cancelled, cancel := context.WithCancel(context.Background())
+	cancel()
+	askers := []*actor.PID{
+		e.Spawn(func() actor.Receiver { return &respawnParent{} }, "asker", actor.WithID("plain")),
+		e.Spawn(func() actor.Receiver { return &respawnParent{} }, "asker", actor.WithID("ctx"), actor.WithContext(cancelled)),
+	}
 	type outcome struct {
 		id, bh, rsp int
 		val         any
@@ -190,7 +197,25 @@ func c11Run(c *caseCtx) (res caseResult) {
 			if o.bh == bhNeverNoTime {
 				to = time.Duration(-(o.id % 3)) * time.Millisecond // 0, -1ms, -2ms: e.g. time.Until(deadline) with nothing left
 			}
-			resp := e.Request(rpids[o.rsp], &reqMsg{ID: o.id, Bh: o.bh}, to)
+			var resp *actor.Response
+			switch o.id % 3 {
+			case 0:
+				resp = e.Request(rpids[o.rsp], &reqMsg{ID: o.id, Bh: o.bh}, to)
+			default:
+				// the request is issued by an actor from inside Receive (Context.Request); the actor may have
+				// been spawned with a context of its own that is already cancelled - the request's timeout is
+				// the one given here all the same
+				got := make(chan *actor.Response, 1)
+				e.Send(askers[o.id%3-1], c10Do{f: func(c *actor.Context) {
+					got <- c.Request(rpids[o.rsp], &reqMsg{ID: o.id, Bh: o.bh}, to)
+				}})
+				select {
+				case resp = <-got:
+				case <-time.After(wd):
+					atomic.AddInt32(&stuck, 1)
+					return
+				}
+			}
 			o.respPID = resp.PID()
 			if o.bh == bhBeforeResult {
 				// the reply is sent, and that send has returned, before Result is even called
